@@ -25,7 +25,7 @@ def check(repo, tier="quick"):
     res.rule("C06.a", "no length argument of nbits/uint_lit/bitarray/bytes can be negative (the reader reads nothing, the writer raises)")
     res.rule("C06.b", "control flow and lengths never depend on the direction (serdes class, io object, context contents), except the documented parse_stream loop")
     res.rule("C06.c", "description-program targets = declared entries per context type; every bitstream value has a default of the primitive's type; nesting table agrees")
-    res.rule("C06.i", "reader and writer keep the same bounded-block bookkeeping (C20.b re-evaluated): a length the reader accepts the writer accepts too")
+    res.rule("C06.i", "the layers underneath agree: bit-level reader and writer keep the same bounded-block bookkeeping, bit order, signed/unsigned exp-Golomb loops and partial-byte discipline (C20.b/c/d/g re-evaluated), and each serdes primitive reads/writes through the matching pair unconditionally (C21.a re-evaluated): a value or length one side accepts the other side accepts too")
     res.rule("C06.h", "history independence: the description program, the serdes framework and the bit-level I/O keep no state between streams; no swapped same-named arguments")
     res.rule("C06.x", "extracted reader/writer asymmetry on negative lengths (the premise of C06.a)")
 
@@ -42,9 +42,19 @@ def check(repo, tier="quick"):
     _rm, _rd = repo.cls("bitstream.io:BitstreamReader")
     _wm, _wr = repo.cls("bitstream.io:BitstreamWriter")
     _c20.rule_b(repo, _sub, _cm(_rd), _cm(_wr), repo.mod("bitstream.io").rel)
+    _c20.rule_c(repo, _sub, _cm(_rd), _cm(_wr), repo.mod("bitstream.io").rel)
+    _c20.rule_d(repo, _sub, _cm(_rd), _cm(_wr), repo.mod("bitstream.io").rel)
+    _c20.rule_g(repo, _sub, _cm(_rd), _cm(_wr), repo.mod("bitstream.io").rel)
+    # ... and of the serdes primitives built on them (C21.a: same primitive set, read_X / write_X pairs, unconditional)
+    from . import c21 as _c21
+
+    _sm = repo.mod("bitstream.serdes")
+    _meth = {n: _cm(_sm.classes[n]) for n in ("SerDes", "Deserialiser", "Serialiser", "MonitoredMixin") if n in _sm.classes}
+    if len(_meth) == 4:
+        _c21.rule_a(repo, _sub, _sm, _meth, _sm.rel)
     for _o in _sub.obs:
         res._add(_Ob("C06.i", "%s/%s" % (_o.rule, _o.key), _o.where, _o.status, _o.detail, _o.by, _o.path))
-    res.floor("C06.i", 6)
+    res.floor("C06.i", 50)
     from .. import globals_state, lints
 
     globals_state.rule(repo, res, "C06.h", ["bitstream.vc2", "bitstream.serdes", "bitstream.io", "bitstream.vc2_fixeddicts", "fixeddict", "pseudocode.slice_sizes"], what="the bytes written for one stream (a second round trip in the same process could differ from the first)")
